@@ -22,6 +22,9 @@ PROPS['C01'] = {
 }
 PROPS['C03'] = {
     'level': 'proof',
+    # the property defines the effect of a rejected transaction (fee to the payer, capped at the payer's balance, nothing else): the
+    # model's failure branch is that definition, so a node/model difference on a delivered transaction is a failing input for C03
+    'mismatch_is_failing_input': True,
     'modules': ['MinterProofs.Props.C04'],
     'theorems': ['Minter.C03_reject_fee_only', 'Minter.C04_nonce_effect', 'Minter.prologue_ne_zero'],
     'campaigns': [camp('malformed', 16, 200), camp('ledger', 8, 100)],
